@@ -15,10 +15,13 @@ class LoopSpec:
     havoc: {local name: sort} for every variable the body assigns (checked against the AST).
     """
 
-    def __init__(self, invariant, havoc, name=None):
+    def __init__(self, invariant, havoc, name=None, ghost=None, ghost_init=None, ghost_step=None):
         self.invariant = invariant
         self.havoc = havoc
         self.name = name or invariant.__name__
+        self.ghost = ghost or {}            # {ghost variable: sort}
+        self.ghost_init = ghost_init        # (locals...) -> dict of initial ghost values
+        self.ghost_step = ghost_step        # (k, locals..., ghosts...) -> dict of updated ghost values (after the body)
 
 
 def loop_ordinal(func_node, node):
@@ -29,11 +32,18 @@ def loop_ordinal(func_node, node):
 
 
 def assigned_names(stmts):
+    """Names (re)bound by the statements, not counting comprehension / lambda scopes."""
     out = set()
+
+    def visit(n):
+        if isinstance(n, (ast.GeneratorExp, ast.ListComp, ast.SetComp, ast.DictComp, ast.Lambda)):
+            return
+        if isinstance(n, ast.Name) and isinstance(n.ctx, (ast.Store, ast.Del)):
+            out.add(n.id)
+        for c in ast.iter_child_nodes(n):
+            visit(c)
     for s in stmts:
-        for n in ast.walk(s):
-            if isinstance(n, ast.Name) and isinstance(n.ctx, (ast.Store, ast.Del)):
-                out.add(n.id)
+        visit(s)
     return out
 
 
@@ -171,6 +181,20 @@ def call_inv(I, spec, k, env):
     return truthy(I.call(f, [], kwargs))
 
 
+def _call_named(I, fn, k, env):
+    f = I.lift(fn)
+    kwargs = {}
+    for p in inspect.signature(fn).parameters:
+        if p == 'k':
+            kwargs[p] = VInt(k)
+        else:
+            try:
+                kwargs[p] = env.lookup(p)
+            except KeyError:
+                raise Unsupported(f'ghost function {fn.__name__} mentions unknown local {p!r}')
+    return I.call(f, [], kwargs)
+
+
 def invariant_loop(I, node, env, src, spec):
     """Unbounded loop by induction: initiation, consecution for one arbitrary iteration,
     and use of the invariant at exit."""
@@ -184,11 +208,21 @@ def invariant_loop(I, node, env, src, spec):
         raise Unsupported(f'loop assigns {missing} not covered by the sidecar havoc set')
     n = src.length
     qual = env.qual.split('.', 1)[-1]
+    from . import symcoll
+    if spec.ghost_init is not None:
+        g0 = _call_named(I, spec.ghost_init, None, env)
+        for gname in spec.ghost:
+            env.vars[gname] = g0.d[gname]
     # initiation
     I.ex.prove(f'{qual}:loop[{spec.name}]:init', call_inv(I, spec, z3.IntVal(0), env), kind='loop-init')
     step = I.ex.choose(z3.Bool(fresh_name('loop.step')))
     for name, sort in spec.havoc.items():
-        env.vars[name] = fresh_of_sort(I, sort, name)
+        if sort in ('symdict', 'symset', 'symlist', 'list_of_symlist'):
+            symcoll.havoc(env.lookup(name), name)       # in place: bound-method aliases keep pointing at it
+        else:
+            env.vars[name] = fresh_of_sort(I, sort, name)
+    for gname, gsort in spec.ghost.items():
+        env.vars[gname] = symcoll.fresh_ghost(gsort, gname)
     if step:
         k = fresh_int('it')
         I.ex.assume(z3.And(k >= 0, k < n))
@@ -197,10 +231,19 @@ def invariant_loop(I, node, env, src, spec):
         r = run_body(I, node.body, env)
         if r == 'break':
             return   # continue after the loop with the state at the break
+        if spec.ghost_step is not None:
+            g1 = _call_named(I, spec.ghost_step, k, env)
+            for gname in spec.ghost:
+                if gname in g1.d:
+                    env.vars[gname] = g1.d[gname]
         I.ex.prove(f'{qual}:loop[{spec.name}]:step', call_inv(I, spec, k + 1, env), kind='loop-step')
         raise PathEnd()
     I.ex.assume(call_inv(I, spec, n, env))
     I.exec_block(node.orelse, env)
+    if spec.name in getattr(I, 'stop_after_loops', ()):
+        # phase proof: the obligations of this loop are what is being verified; the rest of the
+        # function is covered by other contract variants
+        raise PathEnd()
 
 
 def _is_live(name, env):
@@ -504,6 +547,9 @@ _base_fresh = fresh_of_sort
 
 
 def fresh_of_sort(I, sort, name):      # noqa: F811  (extends the basic sorts)
+    if sort == 'dvector':       # a vector with a dtype (non-empty or typed empty): no None-dtype fork
+        from .vecmodel import fresh_vector
+        return fresh_vector(I, name, dtype='dtype')
     if sort == 'ellipsis':
         return ELLIPSIS
     if sort == 'none':
